@@ -301,7 +301,7 @@ Section Sites.
   Qed.
 
   (* ---- every length scaled => everything the flex algorithm reads is related *)
-  Theorem fwrel_of_rel s s' : fstyle_rel k s s' -> fstyle_wrel k s s'.
+  Theorem fwrel_of_rel r s s' : fstyle_rel k s s' -> fstyle_wrel k r s s'.
   Proof.
     intros Hs. pose proof Hs as Hs0. fstyle_open Hs. style_open Hcore. unfold fstyle_wrel.
     repeat match goal with |- _ /\ _ => split end; try assumption.
